@@ -148,7 +148,10 @@ theorem insert_then_load (s : Pkg) (tname : List Char) (rows : List (List Value)
       (stored.map fun cells => keyOf t.keyIndices (rowValues s'.pool cells)).Pairwise (fun a b => keyLt a b = true) ∧
       stored.length = existing.length + rows.length ∧
       Ext s.pool s'.pool ∧ (∀ r ∈ stored, ∀ c ∈ r, LiveCell s'.pool c) ∧
-      PoolSized s'.pool ∧ s'.pool.longRefs = t.longRefs := by
+      PoolSized s'.pool ∧ s'.pool.longRefs = t.longRefs ∧
+      (∃ m m', loadMap s.pool t.keyIndices existing [] = some m ∧
+        addRows t.keyIndices s.pool (rows.map fun r => r.map storable) m = .ok (s'.pool, m') ∧
+        stored = m'.map (·.2)) := by
   obtain ⟨stored, bytes, hw, hdata, hmem, hsorted, hext, -, -, -⟩ :=
     insert_refines s tname rows s' h t ht existing hl hlive
   obtain ⟨m, pool', m', bs, hv1, hv2, hm, hmax, ha, hw', hs'⟩ := insertExec_ok_inv s tname rows s' h t ht existing hl
@@ -213,7 +216,7 @@ theorem insert_then_load (s : Pkg) (tname : List Char) (rows : List (List Value)
   have hk0 : KeyOk s.pool t.keyIndices m :=
     loadMap_keyOk s.pool t.keyIndices existing [] m (by simp [Sorted]) (fun _ hx => by simp at hx) hm
   have hk' : KeyOk pool' t.keyIndices m' := addRows_keyOk t.keyIndices _ s.pool m pool' m' hsm hlm hk0 ha
-  refine ⟨m'.map (·.2), hstored, ?_, ?_, by simp [hlen', hmlen], hext', ?_, hs1, hlr1⟩
+  refine ⟨m'.map (·.2), hstored, ?_, ?_, by simp [hlen', hmlen], hext', ?_, hs1, hlr1, ⟨m, m', hm, ha, rfl⟩⟩
   · intro v
     have h1 : v ∈ (m'.map (·.2)).map (rowValues pool') ↔ v ∈ mapValues pool' m' := by
       unfold mapValues; simp [List.map_map]
